@@ -332,6 +332,15 @@ func (d *Disk) Init(a uint64) []byte {
 
 func (d *Disk) ReadTo(a uint64, b []byte) { copy(b, d.Read(a)) }
 
+// AssumeZero states the pre-state assumption that block n is all zero (natively: checked)
+func (d *Disk) AssumeZero(n uint64) {
+	for _, x := range d.Peek(n) {
+		if x != 0 {
+			panic(AssumeFailed{})
+		}
+	}
+}
+
 func (d *Disk) Write(a uint64, v []byte) {
 	if uint64(len(v)) != 4096 {
 		panic(fmt.Errorf("v is not block-sized (%d bytes)", len(v)))
